@@ -1,7 +1,7 @@
 from vpkg.core import Unit
 from vpkg import csrc
 _t = csrc.Tree()
-_g = [f.name for f in _t.by_file["/repo/src/highlevel/bidib_highlevel_getter.c"]]
+_g = [f.name for f in _t.by_file[csrc.REPO + "/src/highlevel/bidib_highlevel_getter.c"]]
 def _u(name, define, keep):
     return Unit(name="C17." + name, src="units/C17/getters.c", defines=[define], functions=keep, props=["C17"], no_dfcc=True,
                 remove_bodies=[f for f in _g if f not in keep], extra_flags=["--nondet-static", "--unwind", "10"], covers=2, min_obligations=6, timeout=300,
